@@ -71,6 +71,11 @@ def check_c03(repo, tier):
                 ranges = [(None, None)]
             if tier == 'quick' and d >= 4:
                 ranges = ranges[:1] + ranges[-2:]
+            # empty sweeps (the loop range is empty: nothing may be touched), as used when an orthogonality centre is moved step by step and by TT.svd
+            if which == 'ortho_left' and d >= 2:
+                ranges = ranges + [(0, -1)] + ([(k, k - 1) for k in range(1, d)] if tier == 'thorough' else [(1, 0)])
+            elif which == 'ortho_right' and d >= 2:
+                ranges = ranges + ([(k, k + 1) for k in range(0, d - 1)] if tier == 'thorough' else [(0, 1)])
             for (s_, e_), role, rank1 in itertools.product(ranges, ('op', 'vec'), (False, True)):
                 if rank1 and (d < 3 or role == 'op'):
                     continue
@@ -352,7 +357,7 @@ def check_c05(repo, tier):
         return Finding('C05', what.split(' ')[0], fn.where, what, msg, fn.file, fn.node.lineno)
     for d in orders:
         for index in range(1, d):
-            for (ol, orr), trunc, rank1 in itertools.product(((True, True), (False, True), (True, False)), (False, True), (False, True)):
+            for (ol, orr), trunc, rank1 in itertools.product(((True, True), (False, True), (True, False), (False, False)), (False, True), (False, True)):
                 if rank1 and d < 3:
                     continue
                 if tier == 'quick' and (ol, orr) != (True, True) and trunc:
